@@ -28,9 +28,14 @@ class Data:
 
     @classmethod
     def _fromlist(cls, context, lattice, unordered) -> 'Lattice':
+        inst = object.__new__(cls)
+        cls._init_fromlist(inst, context, lattice, unordered)
+        return inst
+
+    @staticmethod
+    def _init_fromlist(inst, context, lattice, unordered) -> None:
         make_objects = context._Objects.fromint
         make_properties = context._Properties.fromint
-        inst = object.__new__(cls)
         concepts = [Concept(inst,
                             make_objects(sum(1 << e for e in ex)),
                             make_properties(sum(1 << i for i in in_)),
@@ -57,8 +62,7 @@ class Data:
                 c.upper_neighbors = tuple(concepts[i] for i in c.upper_neighbors)
                 c.lower_neighbors = tuple(concepts[i] for i in c.lower_neighbors)
 
-        cls._init(inst, context, concepts)
-        return inst
+        inst._init(inst, context, concepts)
 
     def __init__(self, context: 'contexts.Context', infimum=()) -> None:
         """Create lattice from context."""
@@ -140,13 +144,16 @@ class Data:
             c.properties = tuple(c.properties)
 
     def __getstate__(self):
-        """Pickle lattice as ``(context, concepts)`` tuple."""
-        return self._context, self._concepts
+        """Pickle lattice as ``(context, concepts)`` tuple (concepts as index tuples)."""
+        return self._context, self._tolist()
 
     def __setstate__(self, state):
         """Unpickle lattice from ``(context, concepts)`` tuple."""
         context, concepts = state
-        self._init(self, context, concepts, unpickle=True)
+        if concepts and isinstance(concepts[0], Concept):  # pickled by earlier versions
+            self._init(self, context, concepts, unpickle=True)
+        else:
+            self._init_fromlist(self, context, concepts, unordered=False)
 
     def _tolist(self):
         return [(tuple(c._extent.iter_set()),
